@@ -1633,13 +1633,20 @@ impl TypeLayout {
             (Self::Generic(generic), other, _) | (other, Self::Generic(generic), _) => {
                 generic.is_compatible(other, &flags)
             }
-            (Self::ClassSelf(Some(known)), other, ..)
-            | (other, Self::ClassSelf(Some(known)), ..) => {
+            (Self::ClassSelf(Some(known)), other, ..) => {
                 TypeLayout::Class(known.to_owned()).eq_complex(other, flags)
             }
-            (Self::ClassSelf(None), other, Some(executing_class))
-            | (other, Self::ClassSelf(None), Some(executing_class)) => {
+            (other, Self::ClassSelf(Some(known)), ..) => {
+                other.eq_complex(&TypeLayout::Class(known.to_owned()), flags)
+            }
+            (Self::ClassSelf(None), other, Some(executing_class)) => {
                 TypeLayout::Class(executing_class.deref().to_owned()).eq_complex(other, flags)
+            }
+            (other, Self::ClassSelf(None), Some(executing_class)) => {
+                other.eq_complex(
+                    &TypeLayout::Class(executing_class.deref().to_owned()),
+                    flags,
+                )
             }
             (Self::List(ListType::Mixed(t1)), Self::List(ListType::Mixed(t2)), _) => {
                 let flags = Box::new(flags.deref());
